@@ -10,6 +10,7 @@ import (
 	"math"
 	"strings"
 	"testing"
+	"testing/iotest"
 
 	"github.com/datastax/go-cassandra-native-protocol/frame"
 	"github.com/datastax/go-cassandra-native-protocol/primitive"
@@ -139,6 +140,35 @@ func c05Paths(rt *rapid.T) {
 		}
 		if ok, n := restIsSentinel(r4); !ok {
 			rt.Fatalf("DiscardBody did not consume exactly the declared body of %d bytes (%d bytes left after it, seekable=%v)", hd4.BodyLength, n, seekable)
+		}
+	}
+
+	// 4b. the frame is the last thing in the stream and the source hands out its final bytes TOGETHER with io.EOF (allowed
+	// by the io.Reader contract): every body operation still sees the whole body
+	for _, op := range []string{"DecodeRawBody", "DiscardBody", "DecodeBody"} {
+		r := iotest.DataErrReader(bytes.NewReader(enc))
+		hdE, err := codec.DecodeHeader(r)
+		if err != nil {
+			rt.Fatalf("DecodeHeader from a data+EOF reader: %v", err)
+		}
+		switch op {
+		case "DecodeRawBody":
+			rb, err := codec.DecodeRawBody(hdE, r)
+			if err != nil || !bytes.Equal(rb, enc[h:]) {
+				rt.Fatalf("DecodeRawBody from a reader that returns its last bytes together with io.EOF: %v (%d of %d body bytes)\n%s", err, len(rb), len(enc)-h, desc())
+			}
+		case "DiscardBody":
+			if err := codec.DiscardBody(hdE, r); err != nil {
+				rt.Fatalf("DiscardBody from a reader that returns its last bytes together with io.EOF: %v (declared body %d bytes, all present)\n%s", err, hdE.BodyLength, desc())
+			}
+		default:
+			b, err := codec.DecodeBody(hdE, r)
+			if err != nil {
+				rt.Fatalf("DecodeBody from a reader that returns its last bytes together with io.EOF: %v\n%s", err, desc())
+			}
+			if d := diffFrames(F, &frame.Frame{Header: hdE, Body: b}); d != "" {
+				rt.Fatalf("DecodeHeader+DecodeBody from a data+EOF reader differs from DecodeFrame: %s\n%s", d, desc())
+			}
 		}
 	}
 
